@@ -22,6 +22,7 @@ RULE = ("Per rule: (1) every word over the rule's child names + one foreign name
         "Non-trivial: (rule, word) with |word| >= 2; distinct pairs counted (exhaustive words by construction, the "
         "rest by hash, only when longer than the exhaustive bound).")
 RULE += ("  Call forms: the parent validated on its own and as an inner node of a minimal valid host tree (validate.tree from the host's root), with the same judgement of outcome, exception class and codes.")
+RULE += ('  Metamorphic: the same children dressed in a prefix bound (in their own map) to a foreign namespace, qualified extras and tail text give the same outcome, error class and codes.')
 ASSUMPTIONS = [
     "rules.json is the statement of each content model; mixed-content rule set taken from the property text",
     "words on which the strict and loose reading of a choice occurrence differ are unspecified: run, not judged",
